@@ -4194,6 +4194,7 @@ Proof.
   pose proof (oracle_c13_sound c Hs Hf) as H13. pose proof (oracle_c12_sound c Hs Hf) as H12.
   unfold oracle. change (c_prop (selfcase c)) with (c_prop c).
   destruct (c_prop c) as [|[|[|[|[|[|[|[|[|[|[|[|[|[|n]]]]]]]]]]]]]]; try assumption;
+    try (rewrite H6, H12; reflexivity);
     rewrite H4, H5, H6, H7, H13, H12; reflexivity.
 Qed.
 
